@@ -93,3 +93,34 @@ pub fn gen_item(r: &mut Rng, depth: u32, instrs: &[String]) -> Item {
         Item::list(v)
     }
 }
+/// code tree whose root is a non-empty list and whose children are often lists themselves
+/// (CODE.* point arithmetic only shows on trees with nested lists before atoms)
+pub fn gen_tree(r: &mut Rng, depth: u32, instrs: &[String]) -> Item {
+    let n = 1 + r.below(4);
+    let v: Vec<Item> = (0..n)
+        .map(|_| if depth > 1 && r.chance(2, 5) { gen_tree(r, depth - 1, instrs) } else if r.chance(1, 12) { Item::list(vec![]) } else { gen_atom(r, instrs) })
+        .collect();
+    Item::list(v)
+}
+/// a copy of `it` in which one leaf is replaced by a structurally different leaf that PRINTS the same
+/// (float differing beyond the printed decimals, name spelled like an integer / boolean / instruction)
+pub fn print_alike(r: &mut Rng, it: &Item) -> Item {
+    use pushr::push::item::PushType;
+    match it {
+        Item::List { items } => {
+            let mut v = items.copy_vec(items.size()).unwrap_or_default(); // bottom first, as from_vec wants
+            if v.is_empty() {
+                return it.clone();
+            }
+            let k = r.below(v.len() as u64) as usize;
+            v[k] = print_alike(r, &v[k]);
+            Item::list(v)
+        }
+        Item::Literal { push_type: PushType::Float { val } } => Item::float(*val + if val.abs() < 1000.0 { 0.00001 } else { 0.0 }),
+        Item::Literal { push_type: PushType::Int { val } } => Item::name(val.to_string()),
+        Item::Literal { push_type: PushType::Bool { val } } => Item::name(if *val { "TRUE".to_string() } else { "FALSE".to_string() }),
+        Item::InstructionMeta { name } => Item::name(name.clone()),
+        Item::Identifier { name } => Item::instruction(name.clone()),
+        other => other.clone(),
+    }
+}
